@@ -207,4 +207,7 @@ def check(run):
     oa = f('on_accept')
     g0 = [r_ for r_ in q.returns(oa) if any('operation_aborted' in q.render(oa, a) and p for a, p in q.guards_at(oa, r_))]
     run.check(bool(g0), 'R5', 'aborted-accept-ignored', H + '::on_accept', oa.loc(), 'an aborted accept (stop) is not ignored', 'returns on operation_aborted')
+    run.clause('no length test or scan is bounded by a signed difference converted to unsigned')
+    nsd = engines.signed_difference_compares(run, [f_ for f_ in fx.repo_functions(raw=True) if (f_.file.endswith('http_proxy.cpp') or f_.file.endswith('http_server.cpp')) and f_.cfg is not None])
+    run.ok('R11', 'unsigned-compare-of-difference', 'scan', '', 'relational comparisons with a signed operand converted to unsigned in http_proxy.cpp/http_server.cpp: %d' % nsd, nontrivial=False)
     run.floor('R4', 8)
